@@ -145,6 +145,8 @@ def main() -> None:
     kind = sys.argv[5] if len(sys.argv) > 5 else 'ch'
     shard = json.loads(shard_json)
     t0 = time.time()
+    from vf import arena
+    arena.install()          # optional accelerator, no effect on what is explored
     try:
         if kind == 'ch':
             out = run_ch(modname, fname, shard, float(timeout))
